@@ -12,6 +12,7 @@ import (
 	"github.com/Syuparn/pangaea/parser"
 
 	"verifsim/gen"
+	"verifsim/harness"
 	"verifsim/tape"
 )
 
@@ -131,6 +132,7 @@ func (o *oneShot) Read(p []byte) (int, error) {
 type C16Stats struct {
 	Parses       int             `json:"parses"`
 	Variants     int             `json:"variants"`
+	Behaviours   int             `json:"layout_variants_also_compared_by_behaviour"`
 	Discarded    int             `json:"baselines_discarded"`
 	Calibrated   int             `json:"line_breaks_calibrated"`
 	CalibRejects int             `json:"line_breaks_rejected_by_calibration"`
@@ -170,6 +172,7 @@ func (s *C16Stats) Merge(raw json.RawMessage) error {
 	}
 	s.Parses += o.Parses
 	s.Variants += o.Variants
+	s.Behaviours += o.Behaviours
 	s.Discarded += o.Discarded
 	s.Calibrated += o.Calibrated
 	s.CalibRejects += o.CalibRejects
@@ -200,6 +203,7 @@ func (s *C16Stats) Merge(raw json.RawMessage) error {
 type c16Check struct {
 	corpus []string // file contents
 	names  []string
+	it     *harness.Interp
 }
 
 func (c *c16Check) ID() string      { return "C16" }
@@ -321,6 +325,8 @@ var layoutSeeds = []string{
 	"g := {|x|\n  defer x.p\n  return x if x > 1\n  x * 2\n}\ng(\n  3\n)\n",
 	"x := 1 # trailing comment\n# full comment line\ny := 2 # another\n[x, # c\n  y]\n",
 	"<{|i|\n  yield i if i < 3\n  recur(i + 1)\n}>.new(0)\n  |@{|v| v}\n  |~.len\n",
+	"f := {|a, k: 1, j: 2| [a, k, j]}\nf(1, k: S(1), j: S(2))\nf(2, j: S(3), k: S(4))\nf(3, k: S(5), k: S(6))\n",
+	"g := {|a, k: S(1), j: S(2), k: S(3)| [a, k, j]}\ng(1, **{k: S(4)}, **{j: S(5)})\no := {m: m{|k: 1, j: 2| [k, j]}}\no.m(j: S(6), k: S(7), j: S(8))\n",
 }
 
 func init() {
@@ -371,6 +377,7 @@ func (c *c16Check) Run(seed, run uint64, rec []uint32, st Stats, only *Viol) []V
 	kind := []string{"chunking", "layout", "token"}[t.Pick(3, 4, 3)]
 	s.ByKind[kind]++
 	var variant, want string // want: expected AST string
+	behaveSrc := ""
 	var label string
 	switch kind {
 	case "chunking":
@@ -383,7 +390,7 @@ func (c *c16Check) Run(seed, run uint64, rec []uint32, st Stats, only *Viol) []V
 		variant, want, label = src, w, name
 	case "layout":
 		src, name := c.seedProgram(t)
-		if len(src) > 900 {
+		if len(src) > 2000 {
 			// calibration needs small programs; take a generated one instead
 			p := gen.DefaultProfile()
 			p.MaxStmts = 1 + t.Intn(4)
@@ -394,6 +401,9 @@ func (c *c16Check) Run(seed, run uint64, rec []uint32, st Stats, only *Viol) []V
 		if err != nil {
 			s.Discarded++
 			return nil
+		}
+		if name == "generated" || strings.HasPrefix(name, "layoutseed") {
+			behaveSrc = src
 		}
 		// candidate insertion points: start of program, every "\n", and right after an
 		// opening bracket or a comma (the grammar allows one line break there); whether a
@@ -512,6 +522,18 @@ func (c *c16Check) Run(seed, run uint64, rec []uint32, st Stats, only *Viol) []V
 			map[string]interface{}{"ast": clip(want)}, act)
 		return viols
 	}
+	// (a') the same program behaves the same: positions recorded by the lexer must not
+	// leak into evaluation (order of effects, which of two repeated keywords binds, ...)
+	if behaveSrc != "" && len(variant) < 300000 {
+		b0, b1 := c.behaviour(behaveSrc), c.behaviour(variant)
+		s.Behaviours++
+		if b0 != b1 {
+			report("layout", "total"+sizeClass(len(variant)), strings.Fields(label)[0]+"/behaviour",
+				map[string]interface{}{"case": label, "source": clip(variant), "bytes": len(variant), "original": clip(behaveSrc)},
+				map[string]interface{}{"behaviour_of_original": clip(b0)}, map[string]interface{}{"behaviour_with_layout": clip(b1)})
+			return viols
+		}
+	}
 	// (b) the same bytes under tape-chosen reader schedules
 	nsched := 2
 	for i := 0; i < nsched; i++ {
@@ -540,25 +562,50 @@ func (c *c16Check) Run(seed, run uint64, rec []uint32, st Stats, only *Viol) []V
 	return viols
 }
 
+// behaviour evaluates a source text with the simulated callee bound and renders what can
+// be observed: callee invocations in order, output, and the value or error (kind and message;
+// stack traces carry line numbers, which layout changes by design).
+func (c *c16Check) behaviour(src string) string {
+	if c.it == nil {
+		c.it = harness.NewInterp()
+	}
+	prog, err := harness.Parse(src)
+	if err != nil {
+		return "PARSE " + err.Error()
+	}
+	r := c.it.Run(prog, &harness.Callee{Limit: 20000})
+	out := "trace=" + fmt.Sprint(harness.TraceIDs(r.Trace)) + " stdout=" + r.Stdout
+	switch {
+	case r.Panic != "":
+		return out + " PANIC " + r.Panic
+	case r.Err != nil:
+		return out + " Raise(" + r.Err.Kind() + ": " + r.Err.Msg + ")"
+	case r.Obj != nil:
+		return out + " Value " + r.Obj.Inspect()
+	}
+	return out
+}
+
 func (c *c16Check) Evidence(st Stats, tier string) (map[string]interface{}, []string) {
 	s := st.(*C16Stats)
 	cov := map[string]interface{}{
-		"evaluations":                         s.Parses,
-		"distinct_nontrivial":                 len(s.Distinct),
-		"rule":                                "one case = (seed program, transformation {layout padding at a calibrated line break | stretched token | none}, size, reader schedule); every parse goes through the real parser.Parse on a SimReader whose chunk sizes come from the tape; distinct_nontrivial counts distinct (kind, seed, size/position) variants that reached the oracle",
-		"samples":                             s.Samples,
-		"variants":                            s.Variants,
-		"baselines_discarded":                 s.Discarded,
-		"line_breaks_calibrated":              s.Calibrated,
-		"line_breaks_rejected_by_calibration": s.CalibRejects,
-		"fault_kinds_fired":                   map[string]int{"short_read": s.ShortReads, "one_byte_read": s.OneByteReads, "data_plus_eof_runs": s.EOFWithData, "token_straddling_boundary": s.Straddle},
-		"reads":                               s.Reads,
-		"by_kind":                             s.ByKind,
-		"by_size_class":                       s.BySize,
-		"by_reader_policy":                    s.ByPolicy,
-		"bytes_parsed":                        s.Bytes,
-		"simulated_time":                      "none (no clock in the parser); steps = Read calls",
-		"real_vs_stub":                        map[string]string{"real": "third_party/simplexer lexer, parser (goyacc), ast printer", "stub": "io.Reader delivering the source (SimReader)"},
+		"evaluations":         s.Parses,
+		"distinct_nontrivial": len(s.Distinct),
+		"rule":                "one case = (seed program, transformation {layout padding at a calibrated line break | stretched token | none}, size, reader schedule); every parse goes through the real parser.Parse on a SimReader whose chunk sizes come from the tape; distinct_nontrivial counts distinct (kind, seed, size/position) variants that reached the oracle",
+		"samples":             s.Samples,
+		"variants":            s.Variants,
+		"layout_variants_also_compared_by_behaviour": s.Behaviours,
+		"baselines_discarded":                        s.Discarded,
+		"line_breaks_calibrated":                     s.Calibrated,
+		"line_breaks_rejected_by_calibration":        s.CalibRejects,
+		"fault_kinds_fired":                          map[string]int{"short_read": s.ShortReads, "one_byte_read": s.OneByteReads, "data_plus_eof_runs": s.EOFWithData, "token_straddling_boundary": s.Straddle},
+		"reads":                                      s.Reads,
+		"by_kind":                                    s.ByKind,
+		"by_size_class":                              s.BySize,
+		"by_reader_policy":                           s.ByPolicy,
+		"bytes_parsed":                               s.Bytes,
+		"simulated_time":                             "none (no clock in the parser); steps = Read calls",
+		"real_vs_stub":                               map[string]string{"real": "third_party/simplexer lexer, parser (goyacc), ast printer", "stub": "io.Reader delivering the source (SimReader)"},
 	}
 	if len(s.Samples) == 0 {
 		cov["samples"] = []interface{}{"(none)"}
